@@ -227,7 +227,8 @@ func (c *Check) Finish() int {
 		"evaluations":         len(c.obls),
 		"distinct_nontrivial": len(nontrivial),
 		"samples":             samples,
-		"trusted_base":        c.trusted,
+		"trusted_base":        nonNil(c.trusted),
+		"infos":               nonNil(c.infos),
 		"checker_cmd":         "./run.sh " + c.Prop,
 		"per_rule":            perRule,
 		"floors":              c.floors,
@@ -239,6 +240,12 @@ func (c *Check) Finish() int {
 	}
 	for k, v := range c.extra {
 		cov[k] = v
+	}
+	if c.assumptions == nil {
+		c.assumptions = []string{}
+	}
+	if c.trusted == nil {
+		c.trusted = []string{}
 	}
 	ev := map[string]any{
 		"property_id": c.Prop,
@@ -296,4 +303,11 @@ func (c *Check) Finish() int {
 		return 2
 	}
 	return 0
+}
+
+func nonNil(s []string) []string {
+	if s == nil {
+		return []string{}
+	}
+	return s
 }
